@@ -626,6 +626,13 @@ package prover
 //@   ensures result1 == nil ==> r.toks[p + 10] == tok.cs(ps.ConstraintSystem.val)
 //@   lemmas beIntFrom_shift2
 
+// the S3 loader (AWS SDK calls, option closures) is outside the executable subset: its contract is TRUSTED (listed as an
+// assumption); it exists so that the command closure that calls it can be verified
+//@ func ReadSystemFromS3
+//@   trusted
+//@   property C15 C19 C14
+//@   ensures err == nil ==> !isnil(ps)
+
 //@ func ReadSystemFromFile
 //@   property C11 C15 C19
 //@   ensures err == nil ==> !isnil(ps)
